@@ -137,10 +137,29 @@ _XML_PARSE_FUNCS = {"fromstring", "XML", "parse", "iterparse", "XMLParser", "XML
 _XML_MODULE_PREFIXES = ("xml.", "xml", "defusedxml", "lxml", "pyexpat", "html5lib", "bs4")
 
 
-def _xml_sites():
+def _xml_call_target(call, bound):
+    """(call source, dotted module/object the receiver name is bound to) if `call` is a call of an XML parser entry
+    point through a name imported from an XML package, else None"""
+    f = call.func
+    if isinstance(f, ast.Attribute) and f.attr in _XML_PARSE_FUNCS:
+        base = f.value
+        while isinstance(base, ast.Attribute):
+            base = base.value
+        if isinstance(base, ast.Name) and base.id in bound and \
+                bound[base.id].split(".")[0] in ("xml", "defusedxml", "lxml", "pyexpat", "html5lib", "bs4"):
+            return ast.unparse(f), bound[base.id]
+    elif isinstance(f, ast.Name) and f.id in bound and f.id in _XML_PARSE_FUNCS and \
+            bound[f.id].split(".")[0] in ("xml", "defusedxml", "lxml", "pyexpat"):
+        return f.id, bound[f.id]
+    return None
+
+
+def _xml_sites(calls=None):
     """(file, function, call source, module the receiver name is bound to) for every call of an XML
-    parser entry point through a name imported from an XML package"""
+    parser entry point through a name imported from an XML package
+    (`calls`, if given, additionally receives (file, function stack, call node, call source, module, bindings))"""
     sites, imports_seen = [], []
+    calls = calls if calls is not None else []
     pkg = os.path.join(REPO, "sharepoint2text")
     for root, dirs, files in os.walk(pkg):
         dirs[:] = sorted(d for d in dirs if d not in ("tests", "__pycache__"))
@@ -165,17 +184,10 @@ def _xml_sites():
                 for ch in ast.iter_child_nodes(node):
                     st = stack + [ch.name] if isinstance(ch, (ast.FunctionDef, ast.AsyncFunctionDef, ast.ClassDef)) else stack
                     if isinstance(ch, ast.Call):
-                        f = ch.func
-                        if isinstance(f, ast.Attribute) and f.attr in _XML_PARSE_FUNCS:
-                            base = f.value
-                            while isinstance(base, ast.Attribute):
-                                base = base.value
-                            if isinstance(base, ast.Name) and base.id in bound and \
-                                    bound[base.id].split(".")[0] in ("xml", "defusedxml", "lxml", "pyexpat", "html5lib", "bs4"):
-                                sites.append((rel, ".".join(st) or "<module>", ast.unparse(f), bound[base.id]))
-                        elif isinstance(f, ast.Name) and f.id in bound and f.id in _XML_PARSE_FUNCS and \
-                                bound[f.id].split(".")[0] in ("xml", "defusedxml", "lxml", "pyexpat"):
-                            sites.append((rel, ".".join(st) or "<module>", f.id, bound[f.id]))
+                        hit = _xml_call_target(ch, bound)
+                        if hit:
+                            sites.append((rel, ".".join(st) or "<module>", hit[0], hit[1]))
+                            calls.append((rel, st, ch, hit[0], hit[1], bound))
                     visit(ch, st)
 
             visit(tree, [])
@@ -409,4 +421,167 @@ def gen_c12():
     L.append("/-- translator cross-check notes (runtime value vs. source literal); must be empty -/")
     L.append("def notes : List String := " + lean_list(lean_str(n) for n in notes) + "\n")
     L.append("end S2T.Gen.C12Consts\n")
+    return "\n".join(L)
+
+
+# ---------------------------------------------------------------- XML parse chains (which parser sees a part, in which order)
+_TRANSFORMS = {"lstrip", "strip", "rstrip", "removeprefix", "removesuffix", "replace", "sub", "subn", "split", "rsplit",
+               "partition", "rpartition", "decode", "encode", "translate", "join", "lower", "upper", "splitlines"}
+_FORBID_KW = ("forbid_dtd", "forbid_entities", "forbid_external")
+
+
+def _callable_defaults(module, attr, notes, where):
+    """defaults of the forbid_* parameters of <module>.<attr>, from the signature of the INSTALLED object"""
+    import importlib
+    try:
+        obj = importlib.import_module(module)
+    except Exception:
+        head, _, tail = module.rpartition(".")
+        try:
+            obj = getattr(importlib.import_module(head), tail)
+        except Exception as e:
+            notes.append(f"{where}: cannot import {module}: {e}")
+            return None
+    for a in attr.split("."):
+        obj = getattr(obj, a, None)
+        if obj is None:
+            notes.append(f"{where}: {module} has no attribute {attr}")
+            return None
+    try:
+        sig = inspect.signature(obj)
+    except (TypeError, ValueError):
+        notes.append(f"{where}: no signature for {module}.{attr}")
+        return None
+    return {k: sig.parameters[k].default for k in _FORBID_KW if k in sig.parameters}, set(sig.parameters)
+
+
+def _stage_of(rel, stack, call, call_src, module, bound, func_node, notes):
+    """(module, forbid_entities, forbid_dtd, strips, fallback, catches ParseError, catches forbidden, source position)"""
+    where = f"{rel}:{'.'.join(stack) or '<module>'}:{call.lineno}"
+    defused = module.split(".")[0] == "defusedxml"
+    forbid = {"forbid_dtd": False, "forbid_entities": False, "forbid_external": False}
+    if defused:
+        # `ET.fromstring` with ET = defusedxml.ElementTree  ->  module defusedxml.ElementTree, attribute fromstring;
+        # `fromstring` imported by name -> module defusedxml.ElementTree.fromstring, no attribute
+        attr = call_src.split(".", 1)[1] if "." in call_src else ""
+        got = _callable_defaults(module, attr, notes, where) if attr else _callable_defaults(module.rpartition(".")[0], module.rpartition(".")[2], notes, where)
+        if got:
+            defaults, params = got
+            forbid.update({k: v is True for k, v in defaults.items()})
+            for kw in call.keywords:
+                if kw.arg is None:
+                    notes.append(f"{where}: **kwargs at an XML parser call")
+                    forbid = dict.fromkeys(forbid, False)
+                elif kw.arg in _FORBID_KW:
+                    if isinstance(kw.value, ast.Constant) and isinstance(kw.value.value, bool):
+                        forbid[kw.arg] = kw.value.value
+                    else:                       # decided at run time: the worst case counts
+                        forbid[kw.arg] = False
+                elif kw.arg == "parser" and not (isinstance(kw.value, ast.Constant) and kw.value.value is None):
+                    forbid = dict.fromkeys(forbid, False)       # a caller-supplied parser replaces the defused one
+            if len(call.args) > 1 and call_src.rsplit(".", 1)[-1] in ("parse", "iterparse", "fromstring", "XML"):
+                # positional parameters after the data: parse(source, parser, …) / fromstring(text, forbid_dtd, …)
+                forbid = dict.fromkeys(forbid, False) if any(not isinstance(a, ast.Constant) for a in call.args[1:]) else forbid
+    # --- is the data handed over the raw member, or transformed first?
+    assigned = {}
+    for n in ast.walk(func_node):
+        if isinstance(n, ast.Assign) and len(n.targets) == 1 and isinstance(n.targets[0], ast.Name):
+            assigned.setdefault(n.targets[0].id, []).append(n.value)
+
+    def transformed(e, depth=0):
+        for n in ast.walk(e):
+            if isinstance(n, ast.Call) and isinstance(n.func, ast.Attribute) and n.func.attr in _TRANSFORMS:
+                return True
+            if isinstance(n, ast.Subscript) and isinstance(n.slice, ast.Slice):
+                return True
+            if isinstance(n, ast.Name) and depth < 4 and any(transformed(v, depth + 1) for v in assigned.get(n.id, [])):
+                return True
+        return False
+    data_args = list(call.args[:1]) + [k.value for k in call.keywords if k.arg in ("text", "source", "string", "data")]
+    if not data_args:       # a parser OBJECT is built here; its data arrives through .feed(…) somewhere in the function
+        data_args = [c.args[0] for c in ast.walk(func_node) if isinstance(c, ast.Call) and isinstance(c.func, ast.Attribute)
+                     and c.func.attr == "feed" and c.args]
+    strips = any(transformed(a) for a in data_args)
+    # --- inside an `except` handler?  (innermost handler of the function that contains the call)
+    handler = None
+    for n in ast.walk(func_node):
+        if isinstance(n, ast.ExceptHandler) and any(c is call for c in ast.walk(n)):
+            if handler is None or any(h is n for h in ast.walk(handler)):
+                handler = n
+    catches_pe = catches_fb = False
+    if handler is not None:
+        if handler.type is None:
+            catches_pe = catches_fb = True
+        else:
+            try:
+                import importlib
+                import defusedxml
+                from xml.etree.ElementTree import ParseError
+                mod = importlib.import_module(rel[:-3].replace("/", "."))
+                types = eval(compile(ast.Expression(handler.type), "<except>", "eval"), dict(vars(mod)))
+                catches_pe, catches_fb = issubclass(ParseError, types), issubclass(defusedxml.EntitiesForbidden, types)
+            except Exception as e:
+                notes.append(f"{where}: cannot evaluate the exception classes of the enclosing handler: {e}")
+                catches_pe = catches_fb = True
+    return (module, forbid["forbid_entities"], forbid["forbid_dtd"], strips, handler is not None, catches_pe, catches_fb,
+            (call.lineno, call.col_offset))
+
+
+def _xml_chains(notes):
+    """[(file, function, [stage …])]: per function that calls an XML parser entry point, its parser calls in source
+    order, split into chains at every call that is not inside an `except` handler"""
+    calls = []
+    _xml_sites(calls)
+    by_func = {}
+    for rel, stack, call, call_src, module, bound in calls:
+        by_func.setdefault((rel, tuple(stack)), []).append((call, call_src, module, bound))
+    chains = []
+    for (rel, stack), cs in sorted(by_func.items()):
+        func_node = parse(rel)
+        # the innermost enclosing function / class body of the first call (same tree walk as _xml_sites)
+        tree = func_node
+        for name in stack:
+            for ch in ast.walk(tree):
+                if isinstance(ch, (ast.FunctionDef, ast.AsyncFunctionDef, ast.ClassDef)) and ch.name == name and ch is not tree:
+                    tree = ch
+                    break
+        # the call nodes come from another parse of the same file: locate them by position
+        pos = {(c.lineno, c.col_offset) for c, _, _, _ in cs}
+        local = {(n.lineno, n.col_offset): n for n in ast.walk(tree) if isinstance(n, ast.Call) and (n.lineno, n.col_offset) in pos}
+        stages = []
+        for c, call_src, module, bound in cs:
+            node = local.get((c.lineno, c.col_offset), c)
+            stages.append(_stage_of(rel, list(stack), node, call_src, module, bound, tree, notes))
+        stages.sort(key=lambda s: s[-1])
+        cur = []
+        for s in stages:
+            if cur and not s[4]:
+                chains.append((rel, ".".join(stack) or "<module>", cur))
+                cur = []
+            cur.append(s[:-1])
+        if cur:
+            chains.append((rel, ".".join(stack) or "<module>", cur))
+    return chains
+
+
+@generator("C12Xml")
+def gen_c12_xml():
+    notes = []
+    chains = _xml_chains(notes)
+    L = [HEADER.format(src="every module of the package (AST: XML parser calls, their keywords, enclosing except handlers; "
+                           "runtime: forbid_* defaults of the installed defusedxml, exception hierarchy)")]
+    L.append("namespace S2T.Gen.C12Xml\n")
+    L.append("/-- per parsing function: its XML parser calls in source order, a new chain at every call outside an `except` handler.\n"
+             "    stage = (module the parser comes from, refuses <!ENTITY, refuses DOCTYPE, is fed transformed (e.g. stripped) data,\n"
+             "    runs inside an except handler, that handler catches ParseError, … catches defusedxml's exceptions) -/")
+    b = lambda v: "true" if v else "false"
+    L.append("def xmlParseChains : List (String × String × List (String × Bool × Bool × Bool × Bool × Bool × Bool)) := " + lean_list(
+        f"({lean_str(rel)}, {lean_str(fn)}, [" + ", ".join(
+            f"({lean_str(m)}, {b(fe)}, {b(fd)}, {b(st)}, {b(fb)}, {b(cp)}, {b(cf)})" for m, fe, fd, st, fb, cp, cf in stages) + "])"
+        for rel, fn, stages in chains) + "\n")
+    import defusedxml
+    L.append(f"def defusedxmlVersion : String := {lean_str(defusedxml.__version__)}")
+    L.append("/-- constructs the chain reader could not interpret (worst case assumed); must be empty -/")
+    L.append("def xmlChainNotes : List String := " + lean_list(lean_str(n) for n in notes) + "\n")
+    L.append("end S2T.Gen.C12Xml\n")
     return "\n".join(L)
